@@ -88,6 +88,9 @@ def run_z(zobls, jobs: int):
         return list(ex.map(one, zobls))
 
 
+FALLBACK_NOTE = ""
+
+
 def selftest_obligations():
     M = "xhair.obl.selftest"
     o = [Obl(f"engine-selftest-sid[{g}]", M, "pinned_sid", env={"VF_GROUP": str(g), "VF_CONF": "miniA"}, timeout=150, family="engine-selftest", bound="6 pinned strings: the symbolic run must equal CPython") for g in range(3)]
@@ -108,8 +111,24 @@ def cmd_check(args) -> int:
     except Exception as e:
         print(f"harness error: cannot import checks.{prop.lower()}: {e!r}")
         return 2
-    xobls: List[Obl] = mod.x_obligations(tier) if hasattr(mod, "x_obligations") else []
-    zobls = mod.z_obligations(tier) if hasattr(mod, "z_obligations") else []
+    # the deeper obligation set of a property is used only once it has been run end-to-end on the unchanged tree
+    # (thorough_validated.json); otherwise the thorough tier runs the quick set with doubled per-obligation budgets
+    build_tier = tier
+    if tier == "thorough":
+        try:
+            validated = set(json.load(open(os.path.join(VERIF, "thorough_validated.json"))))
+        except Exception:
+            validated = None
+        if validated is not None and prop not in validated:
+            build_tier = "quick"
+    xobls: List[Obl] = mod.x_obligations(build_tier) if hasattr(mod, "x_obligations") else []
+    zobls = mod.z_obligations(build_tier) if hasattr(mod, "z_obligations") else []
+    if build_tier != tier:
+        for o in xobls:
+            o.timeout = int(o.timeout * 2)
+        global FALLBACK_NOTE
+        FALLBACK_NOTE = f"thorough tier of {prop}: the deeper obligation set was not validated end-to-end on the unchanged tree in the time available; this run used the quick obligation set with doubled per-obligation budgets"
+        print("note: " + FALLBACK_NOTE)
     # the pinned differential self-test of the engine and its corrections runs with every check
     if xobls and not any(o.family == "engine-selftest" for o in xobls):
         xobls = selftest_obligations() + xobls
@@ -299,7 +318,7 @@ def build_evidence(prop, tier, seed, mod, xres, zres, violations, known_hits, di
             "z_discharged": zd,
             "engine_disagreements": disagreements,
             "known_findings_hit": sorted({k["id"] for k, _ in known_hits}),
-            "outside_claim": meta.get("outside", []),
+            "outside_claim": list(meta.get("outside", [])) + ([FALLBACK_NOTE] if FALLBACK_NOTE else []),
             "stubs": meta.get("stubs", []),
             "exhaustive": False,
         },
